@@ -127,7 +127,11 @@ func main() {
 		os.Exit(2)
 	}
 	facts := Facts{Consts: map[string]string{}, Funcs: map[string]FuncFact{}}
+	var dialLean string
 	for _, p := range pkgs {
+		if p.Name == "netpoll" {
+			dialLean = dialFacts(p)
+		}
 		if len(p.Errors) > 0 {
 			for _, e := range p.Errors {
 				fmt.Fprintln(os.Stderr, "pkg error:", e)
@@ -243,6 +247,10 @@ func main() {
 		}
 		b.WriteString("\nend Netpoll.Gen\n")
 		if err := os.WriteFile(filepath.Join(*out, "Consts.lean"), []byte(b.String()), 0o644); err != nil {
+			fmt.Fprintln(os.Stderr, err)
+			os.Exit(2)
+		}
+		if err := os.WriteFile(filepath.Join(*out, "Dial.lean"), []byte(dialLean), 0o644); err != nil {
 			fmt.Fprintln(os.Stderr, err)
 			os.Exit(2)
 		}
